@@ -161,7 +161,9 @@ func exploreImpl(c *vlib.Check, p *protos.Proto, ls []*letter, rep *report) impl
 			res.edges++
 			next, ctxAfter, err := p.Step(cur, l.Msg.Msg)
 			key := func(kind string) string { return fmt.Sprintf("%s|%s|%s|%s", id, cur, l.Spec, kind) }
-			rp := map[string]any{"proto": id, "trace": traceOf(res.nodes, qi), "message": l.Label}
+			rp := func() map[string]any {
+				return map[string]any{"proto": id, "trace": traceOf(res.nodes, qi), "message": l.Label}
+			}
 			// determinism: evaluate every transition, not only the first match
 			succ := p.Matching(cur, l.Msg.Msg)
 			distinct := map[protos.ImplState]bool{}
@@ -175,14 +177,14 @@ func exploreImpl(c *vlib.Check, p *protos.Proto, ls []*letter, rep *report) impl
 				}
 				sort.Strings(names)
 				rep.add(key("nondeterministic"), fmt.Sprintf("after %v the message %s matches %d transitions with different successors %v; nextState silently takes the first",
-					traceOf(res.nodes, qi), l.Label, len(succ), names), rp)
+					traceOf(res.nodes, qi), l.Label, len(succ), names), rp())
 			}
 			if (err == nil) != (len(succ) > 0) {
 				c.Internal("%s: harness re-evaluation of the transitions disagrees with nextState in %s on %s", id, cur, l.Label)
 			}
 			if err != nil {
 				if ctxAfter != cur.Ctx {
-					rep.add(key("reject-mutates-context"), fmt.Sprintf("after %v the message %s is rejected but the StateContext changed", traceOf(res.nodes, qi), l.Label), rp)
+					rep.add(key("reject-mutates-context"), fmt.Sprintf("after %v the message %s is rejected but the StateContext changed", traceOf(res.nodes, qi), l.Label), rp())
 				}
 				c.Eval("", "impl:reject")
 				continue
@@ -196,7 +198,7 @@ func exploreImpl(c *vlib.Check, p *protos.Proto, ls []*letter, rep *report) impl
 			typeAgency[l.Msg.Msg.Type()][ag] = cur.State.Name
 			if _, ok := sm[next.State]; !ok {
 				rep.add(key("successor-not-in-state-map"), fmt.Sprintf("after %v the message %s leads to state %s which is not a key of the state map (it would be treated as terminal)",
-					traceOf(res.nodes, qi), l.Label, next.State.Name), rp)
+					traceOf(res.nodes, qi), l.Label, next.State.Name), rp())
 			}
 			// the decoded twin must take the same transition: the engine only ever sees decoded messages on receive
 			l.roundtrip(p)
@@ -204,7 +206,7 @@ func exploreImpl(c *vlib.Check, p *protos.Proto, ls []*letter, rep *report) impl
 				n2, _, err2 := p.Step(cur, l.dec)
 				if err2 != nil || n2 != next {
 					rep.add(key("codec-changes-transition"), fmt.Sprintf("after %v the constructed %s leads to %s but the same message after encode/decode leads to %v (err=%v)",
-						traceOf(res.nodes, qi), l.Label, next, n2, err2), rp)
+						traceOf(res.nodes, qi), l.Label, next, n2, err2), rp())
 				}
 			}
 			if _, ok := index[next]; !ok {
@@ -306,10 +308,16 @@ func product(p *protos.Proto, sp *protos.SpecAutomaton, ls []*letter) *prodResul
 	res.nodes = append(res.nodes, prodNode{pr: init, parent: -1})
 	for qi := 0; qi < len(res.nodes); qi++ {
 		cur := res.nodes[qi].pr
-		tr := res.trace(qi)
+		var trc []string
+		trf := func() []string {
+			if trc == nil {
+				trc = res.trace(qi)
+			}
+			return trc
+		}
 		pairName := cur.impl.String() + "×" + cur.spec
 		rp := func(l string) map[string]any {
-			return map[string]any{"proto": id, "spec": sp.Name, "reading": sp.Reading, "trace": tr, "message": l}
+			return map[string]any{"proto": id, "spec": sp.Name, "reading": sp.Reading, "trace": trf(), "message": l}
 		}
 		// agency and termination of the pair
 		ia, _ := p.AgencyOf(cur.impl.State)
@@ -320,7 +328,7 @@ func product(p *protos.Proto, sp *protos.SpecAutomaton, ls []*letter) *prodResul
 				kind = "terminal"
 			}
 			res.rep.add(fmt.Sprintf("%s|%s|-|%s", id, pairName, kind),
-				fmt.Sprintf("after %v the implementation is in %s (agency %s) while the specification is in %s (agency %s)", tr, cur.impl, ia, cur.spec, sa), rp("-"))
+				fmt.Sprintf("after %v the implementation is in %s (agency %s) while the specification is in %s (agency %s)", trf(), cur.impl, ia, cur.spec, sa), rp("-"))
 		}
 		for _, l := range ls {
 			res.edges++
@@ -349,12 +357,12 @@ func product(p *protos.Proto, sp *protos.SpecAutomaton, ls []*letter) *prodResul
 				res.outcomes["impl-rejects-spec-accepts"]++
 				res.rep.add(fmt.Sprintf("%s|%s|%s|impl-rejects-spec-accepts", id, pairName, l.Spec),
 					fmt.Sprintf("after %v (implementation in %s, specification %s in %s) the specification permits %s -> %s but the implementation rejects it: %v",
-						tr, cur.impl, sp.Name, cur.spec, l.Label, snext, ierr), rp(l.Label))
+						trf(), cur.impl, sp.Name, cur.spec, l.Label, snext, ierr), rp(l.Label))
 			default: // implementation accepts, specification does not
 				res.outcomes["impl-accepts-spec-rejects"]++
 				res.rep.add(fmt.Sprintf("%s|%s|%s|impl-accepts-spec-rejects", id, pairName, l.Spec),
 					fmt.Sprintf("after %v (implementation in %s, specification %s in %s) the implementation accepts %s -> %s but the specification does not permit that message in %s",
-						tr, cur.impl, sp.Name, cur.spec, l.Label, inext, cur.spec), rp(l.Label))
+						trf(), cur.impl, sp.Name, cur.spec, l.Label, inext, cur.spec), rp(l.Label))
 			}
 		}
 	}
@@ -555,6 +563,7 @@ func TestC16(t *testing.T) {
 	c.Set("states", states)
 	c.Set("transitions", transitions)
 	c.Set("traces_validated_against_impl", states)
+	c.Set("evaluations", transitions+implEdges+csEdges)
 	c.Set("configurations", len(all))
 	c.Set("configurations_with_specification", countSpec(all))
 	c.Set("impl_only_states", implStates)
